@@ -1381,7 +1381,7 @@ mod expression_parser {
                 body: Box::new(body),
               });
             } else {
-              let tuple_elements = parameters_or_tuple_elements_cover
+              let mut tuple_elements = parameters_or_tuple_elements_cover
                 .into_iter()
                 .map(|name| {
                   expr::E::LocalId(
@@ -1394,6 +1394,13 @@ mod expression_parser {
                   )
                 })
                 .collect_vec();
+              if let Some(node) = tuple_elements.get(MAX_STRUCT_SIZE) {
+                parser.error_set.report_invalid_syntax_error(
+                  node.loc(),
+                  format!("Maximum allowed tuple size is {MAX_STRUCT_SIZE}"),
+                );
+              }
+              tuple_elements.truncate(MAX_STRUCT_SIZE);
               let loc = peeked_loc.union(&right_parenthesis_loc);
               if tuple_elements.len() == 1 {
                 // `(a,)`: there is no one-element tuple.
